@@ -105,6 +105,10 @@ def cases(tier):
             for ps in (None, 10.0):
                 for wall in ('none', 'flow'):
                     out.append(dict(base, wall=wall, coolant=cool, re='lam', dT=200.0, pscale=ps))
+        # tabulated coolants read between table rows that the inlet / outlet do not hit (inlet 573.15 K, 100 K rise)
+        for cool in ('potassium', 'sodium', 'lead'):
+            for wall in ('none', 'flow'):
+                out.append(dict(base, wall=wall, coolant=cool, re='lam', dT=100.0, inlet=573.15))
         # correlation-update tolerance on (constant and tabulated coolant)
         for cool in (None, 'sodium'):
             for du in ('1', '2f'):
@@ -193,7 +197,7 @@ def cases(tier):
 
 
 # heat capacity near 720 K of the tabulated coolants (dassh.Material look-up, only used to size the power)
-CP_COOL = {'lead': 145.9, 'lbe': 142.0, 'nak': 887.0, 'bismuth': 137.0}
+CP_COOL = {'lead': 145.9, 'lbe': 142.0, 'nak': 887.0, 'bismuth': 137.0, 'potassium': 768.0}
 
 
 def build(c, power):
@@ -220,6 +224,8 @@ def build(c, power):
     if c.get('cell_at') is not None:
         for spec in scn['power']['asm'].values():
             spec['cells'] = [0.0, float(c['cell_at']), spec['cells'][-1]]
+    if c.get('inlet') is not None:
+        scn['core']['inlet'] = float(c['inlet'])
     if c.get('core', 1) == 7:
         a0 = scn['assign'][0]
         flow = a0[3]['flowrate']
